@@ -85,6 +85,50 @@ def resolve_boundary(lib, spec):
     return copy.deepcopy(cache[key])
 
 
+def entry_args(lib, path, k, x, data, boundary):
+    """the arguments of the per-system assembly / the per-lane dispatcher as its signature wants them (any parameter order; the axis
+    possibly held by a private one-field struct)"""
+    from ..roles import entry_param_roles
+    b = lib.body(path)
+    ps = [p_.get('ty', '') if isinstance(p_, dict) else str(p_) for p_ in b['params']]
+    proles = entry_param_roles(lib, ps)
+    canon = ['k', 'x', 'data', 'boundary']
+    given = {'k': k, 'x': x, 'data': data, 'boundary': boundary}
+    if proles is None:
+        proles, ps = canon, ps if len(ps) == 4 else [''] * 4
+    args = []
+    for ty, pr in zip(ps, proles):
+        if isinstance(pr, tuple):
+            _, fld, adt, var = pr
+            v = Enum(adt, var, {fld: Ref(ValPlace(x))})
+        else:
+            v = given[pr]
+        # the canonical call shape of the tree passes the axis by reference, and the data by reference to the assembly
+        byref = ty.startswith('&') if ty else (pr == 'x')
+        args.append(Ref(ValPlace(v)) if byref and not isinstance(v, Ref) else v)
+    return args
+
+
+def canon_entry_call(lib, path, args):
+    """[k, x, data, boundary] of a recorded call of the assembly / dispatcher, whatever the order of its parameters"""
+    from ..roles import entry_param_roles
+    b = lib.body(path)
+    args = [deref_all(a) for a in args]
+    if b is None:
+        return args
+    ps = [p_.get('ty', '') if isinstance(p_, dict) else str(p_) for p_ in b['params']]
+    proles = entry_param_roles(lib, ps)
+    if proles is None or len(proles) != len(args):
+        return args
+    out = {}
+    for pr, a in zip(proles, args):
+        if isinstance(pr, tuple):
+            out['x'] = deref_all(a.fields[pr[1]]) if isinstance(a, Enum) and pr[1] in a.fields else a
+        else:
+            out[pr] = a
+    return [out['k'], out['x'], out['data'], out['boundary']]
+
+
 def run_solve(lib, boundary, n=None, **scn):
     infer_thomas_labels(lib)
     b = lib.body(SFK)
@@ -101,7 +145,7 @@ def run_solve(lib, boundary, n=None, **scn):
     k = m.new_arr2(m.n, 'k')
     m.k = k
     try:
-        out = deref_all(it.call_def(b['def'], [k, Ref(ValPlace(x)), Ref(ValPlace(data)), boundary]))
+        out = deref_all(it.call_def(b['def'], entry_args(lib, SFK, k, x, data, boundary)))
         return m, out, None
     except (Unsupported, Diverge) as ex:
         return m, None, ex
@@ -354,15 +398,22 @@ class TModel(SModel):
 
     def loop_call(self, frame, thunk):
         carried = {}
+        scalars = {}
         f = frame
         while f is not None:
             for k, v in f.vars.items():
                 if isinstance(v, Obj) and v.kind == 'lanesvar' and k not in carried:
                     carried[k] = v
+                # a `let mut` scalar alive across the loop: possibly carried from one row to the next
+                if isinstance(v, Num) and k in self.interp.mut_vars and k not in scalars and v.const() is None:
+                    scalars[k] = f
             f = f.parent
         pre = {k: v.d['cell']['r'] for k, v in carried.items()}
         for k, v in carried.items():
             v.d['cell']['r'] = Rat.atom('carry:' + k.split('#')[0])
+        spre = {k: f_.vars[k].r for k, f_ in scalars.items()}
+        for k, f_ in scalars.items():
+            f_.vars[k] = Num(Rat.atom('carry:' + k.split('#')[0]))
         gen_before = {id(t): len(t.generic) for t in self.arrays}
         r = thunk()
         lp = self.loops[-1]
@@ -371,15 +422,48 @@ class TModel(SModel):
         rep = dict(lp)
         rep['carried'] = {k.split('#')[0]: (pre[k], post[k]) for k in changed}
         rep['generic'] = {}
+        written = []
         for t in self.arrays:
             if len(t.generic) > gen_before.get(id(t), 0):
                 g = t.generic[-1]
                 rep['generic'][t.sym or t.name] = (g.get('idx'), g['value'])
-                if t.sym is not None:
-                    t.sym = t.sym + "'"      # contents after this loop
-                    t.generic = []
+                written.append((t, g))
+        # carried scalars: c starts as T[lo-1] and the body leaves the value it wrote to T[j] in it: at the head of row j it is T'[j-1]
+        # (rows below lo are not written by the loop) - the same thing an index-based sweep reads as T[j-1]
+        var = A(lp['var'])
+        for k, f_ in scalars.items():
+            nm = 'carry:' + k.split('#')[0]
+            now = f_.vars[k]
+            if isinstance(now, Num) and str(now.r) == nm:
+                f_.vars[k] = Num(spre[k])          # untouched by the loop
+                continue
+            src = None
+            for t, g in written:
+                if isinstance(now, Num) and isinstance(g['value'], Rat) and g['value'] == now.r and str(g.get('idx')) == lp['var'] and not lp['rev']:
+                    first = Rat.atom("%s[%s]" % (t.sym or t.name, idx_name(lp['lo'] - 1)))
+                    if spre[k] == first:
+                        src = t
+            if src is None:
+                continue                            # stays an unknown `carry:` atom: the formulas of the sweep will not be recognised
+            prev = Rat.atom("%s[%s]" % (src.sym or src.name, idx_name(var - 1)))
+            for t, g in written:
+                if isinstance(g['value'], Rat):
+                    g['value'] = reindex_atom(g['value'], nm, prev)
+                    rep['generic'][t.sym or t.name] = (g.get('idx'), g['value'])
+            rep['carried'] = {c_: (a_, reindex_atom(b_, nm, prev) if isinstance(b_, Rat) else b_) for c_, (a_, b_) in rep['carried'].items()}
+            f_.vars[k] = Num(Rat.atom("%s'[%s]" % (src.sym or src.name, idx_name(lp['hi']))))
+            rep.setdefault('carried_scalars', {})[k.split('#')[0]] = str(prev)
+        for t, g in written:
+            if t.sym is not None:
+                t.sym = t.sym + "'"      # contents after this loop
+                t.generic = []
         self.loop_reports.append(rep)
         return r
+
+
+def reindex_atom(r, atom, by):
+    """the rational function `r` with the atom `atom` replaced by the rational function `by`"""
+    return r.subs({atom: by})
 
 
 def solver_args(lib, m, names):
@@ -1070,7 +1154,7 @@ def check_dispatcher(chk, lib, rule):
         it = Interp(lib, m)
         k, data, bd = objs()
         try:
-            out = deref_all(it.call_def(b['def'], [k, Ref(ValPlace(x)), data, bd]))
+            out = deref_all(it.call_def(b['def'], entry_args(lib, SFKI, k, x, data, bd)))
         except (Unsupported, Diverge) as ex:
             chk.ob(rule, "the dispatcher (rank > 1) is within the reviewed surface: %s" % ex, False, ex.where, 'dispatch-deep-unrecognised')
             continue
@@ -1100,7 +1184,7 @@ def check_dispatcher(chk, lib, rule):
         it = Interp(lib, m)
         k, data, bd = objs()
         try:
-            it.call_def(b['def'], [k, Ref(ValPlace(x)), data, bd])
+            it.call_def(b['def'], entry_args(lib, SFKI, k, x, data, bd))
         except (Unsupported, Diverge) as ex:
             chk.ob(rule, "the dispatcher (rank <= 1) is within the reviewed surface: %s" % ex, False, ex.where, 'dispatch-leaf-unrecognised')
             continue
